@@ -219,6 +219,8 @@ def main(run):
         scopes_seen[scope] += 1
         diff = compare(head, rec, got, want)
         if diff:
+            if rec.get("shadow1") and st.get("native") is False and head != "for" and "UnboundLocalError" in diff:
+                key = "generator-function strategy: the leading iterable reads a name the form itself binds"
             run.violation(key, f"{head} in {scope} scope (statement at position {sp}): {diff}; program:\n{text}",
                           {"program": text, "head": head, "scope": scope, "stmtpos": sp, "spec": rec,
                            "got": {k: repr(v) for k, v in got.items()}, "want": {k: repr(v) for k, v in want.items()}})
